@@ -75,10 +75,11 @@ class Gen(object):
             for i in range(rng.randint(0, 2)):
                 res['shared%d' % i] = label
             self.root_resources = [k for k in res if k.startswith('shared')]
+            self.root_none = [rng.pick(self.root_resources)] if self.root_resources and rng.chance(0.3) else []
         elif self.root_resources and rng.chance(0.3):
             nm = self.root_resources.pop()
             res[nm] = label                       # shared between the outermost application and this level only
-        node = {'label': label, 'resources': res, 'slash': rng.pick(MODES + ['redirect']),
+        node = {'label': label, 'resources': res, 'none_resources': list(self.root_none) if is_root else [], 'slash': rng.pick(MODES + ['redirect']),
                 'factory': rng.chance(0.5), 'eh': rng.chance(0.6), 'mws': [], 'children': []}
         used_types = set()
         for _ in range(rng.pick([0, 1, 1, 2])):
@@ -308,9 +309,12 @@ def new_env():
     return {'by_id': {}, 'types': {}, 'keep': []}
 
 
-def res_objects(env, resources, where):
+def res_objects(env, resources, where, none=()):
     out = {}
     for name, owner in resources.items():
+        if name in none:
+            out[name] = None            # a resource registered with the value None is a definition like any other
+            continue
         o = spies.Marker(['res', name, owner])
         env['by_id'][id(o)] = 'resource:%s@%s' % (name, owner)
         env['keep'].append(o)
@@ -321,7 +325,7 @@ def res_objects(env, resources, where):
 # ---- nested construction (the thing under test) ------------------------------------------------------------------
 def build_nested(env, node):
     from clastic import Application, Route, SubApplication
-    app = Application([], resources=res_objects(env, node['resources'], node['label']),
+    app = Application([], resources=res_objects(env, node['resources'], node['label'], node.get('none_resources') or ()),
                       middlewares=[make_mw_instance(env, m) for m in node['mws']],
                       render_factory=make_factory(node['label']) if node['factory'] else None,
                       error_handler=make_handler(node['label'] if node['eh'] else None, env, handler_resource(node)),
@@ -404,7 +408,7 @@ def flatten(root):
 
 def build_flat(env, root, flat):
     from clastic import Application, Route
-    app = Application([], resources=res_objects(env, root['resources'], root['label']),
+    app = Application([], resources=res_objects(env, root['resources'], root['label'], root.get('none_resources') or ()),
                       middlewares=[make_mw_instance(env, m) for m in root['mws']],
                       error_handler=make_handler(root['label'] if root['eh'] else None, env, handler_resource(root)),
                       slash_mode=root['slash'])
@@ -478,7 +482,8 @@ def absolute_checks(tree, flat, a):
                 return 'renderer', 'body %r, expected it to start with %r' % (a['body'][:80], lead)
     if a['status'] and a['status'] >= 400 and a['status'] != 500 and tree['eh'] and a['eh'] != root:
         return 'error-handler', 'error response stamped by %r, the serving application is %s' % (a['eh'], root)
-    if a.get('eh_res') and not a['eh_res'].endswith('@' + root):
+    eh_none = handler_resource(tree) in (tree.get('none_resources') or ())      # the serving application defines it as None
+    if a.get('eh_res') and not a['eh_res'].endswith('@' + root) and not (eh_none and a['eh_res'] == 'other:NoneType'):
         return 'error-handler-resource', 'the serving application\'s error handler was handed %s for a resource the serving application defines' % a['eh_res']
     return None
 
